@@ -237,11 +237,39 @@ class Engine:
                 c = self.prefix[i][1]
                 if c is None:
                     raise RuntimeError("replay divergence in concretize")
-            else:
-                self._ensure_model()
-                c = self.model.eval(v.t, model_completion=True).as_signed_long()
-            if self.decide(v.t == z3.BitVecVal(c, v.w), aux=c):
-                return c
+                if self.decide(v.t == z3.BitVecVal(c, v.w), aux=c):
+                    return c
+                continue
+            # new concretisation point: enumerate the feasible values now (up to a cap) and queue one sibling path per value, so that the
+            # alternatives can be explored in parallel instead of being discovered one after the other
+            self._ensure_model()
+            first = self.model.eval(v.t, model_completion=True).as_signed_long()
+            found = [first]
+            CAP = 64
+            exhausted = False
+            self.solver.push()
+            try:
+                self.solver.add(v.t != z3.BitVecVal(first, v.w))
+                while len(found) < CAP:
+                    r = self._check()
+                    if r != z3.sat:
+                        exhausted = r == z3.unsat
+                        break
+                    c = self.solver.model().eval(v.t, model_completion=True).as_signed_long()
+                    found.append(c)
+                    self.solver.add(v.t != z3.BitVecVal(c, v.w))
+            finally:
+                self.solver.pop()
+            base = list(self.trace)
+            for c in found[1:]:
+                self.work.append(base + [(True, c)])
+            if not exhausted:
+                # more values than the cap: one more sibling that excludes everything enumerated here
+                self.work.append(base + [(False, c) for c in found])
+            self.stats["decisions"] += 1
+            self._assert(v.t == z3.BitVecVal(first, v.w))
+            self.trace.append((True, first))
+            return first
 
     def prefer(self, cond):
         """narrow the current path to inputs satisfying cond when that is possible (used to obtain small witnesses); never forks"""
